@@ -78,7 +78,11 @@ func vrtHarness_C17_tcFallback() {
 
 // msgTruncated tests exactly the TC bit (0x02 of the third header byte).
 func vrtHarness_C17_tcBit() {
-	b := vrtBytes(12)
+	// replies of every interesting size: a bare header, typical sizes and the sizes around the
+	// 4095-byte receive buffer and the 64-KiB limit; the header bytes are arbitrary
+	sizes := []int{12, 13, 512, 1232, 4094, 4095, 4096, 65535}
+	b := make([]byte, sizes[vrtChoice(len(sizes))])
+	copy(b, vrtBytes(12))
 	vrtCover("tc", msgTruncated(b))
 	vrtCover("not tc", !msgTruncated(b))
 	vrtAssert("msgTruncated is the TC bit", msgTruncated(b) == (b[2]&0x02 != 0))
